@@ -76,7 +76,7 @@ class LinkPrims:
             if not stores:
                 continue
             # direct = (*param).next ; indirect = (*(*x).prev).next
-            direct = any(self._is_direct(b, s) for s in stores)
+            direct = self._stores_own_links(F, b) if b["arg_count"] == 2 else any(self._is_direct(b, s) for s in stores)
             mentions = set()
             for blk in b["blocks"]:
                 for s in blk["s"]:
@@ -102,6 +102,21 @@ class LinkPrims:
                 continue
             self.kind[b["path"]] = k
             self.head_only[b["path"]] = mentions
+
+    @staticmethod
+    def _stores_own_links(F, b):
+        """does the function store to the prev/next of the node it is given (attach) rather than only to its neighbours' (detach)?
+        Decided on the abstract store events, so `(*node).next = ..` and `let n = &mut *node; n.next = ..` are the same thing."""
+        from . import absint
+        try:
+            paths = absint.Interp(F, absint.DefaultPolicy(), absint.Models()).run(b["path"])
+        except Exception:
+            return None
+        for p in paths:
+            for e in p.events:
+                if e["ev"] == "store" and e["loc"][0] == "H" and e["loc"][2][-1:] in (("prev",), ("next",)) and e["loc"][1] == ("param", 2, False):
+                    return True
+        return False
 
     def _is_direct(self, b, s):
         pr = s["p"]["p"]
